@@ -93,8 +93,9 @@ ParseIntOK(txt, ty, out) ==
       ds == IF signed THEN Tail(t) ELSE t
       wellformed == AllDigits(ds)
       v == Mk(signed /\ t[1] = 45, DigitsVal(ds).mag)
+      spaces == t # txt         \* surrounding whitespace: accepting or rejecting it is unspecified
   IN IF ~wellformed THEN out.k = "err"
-     ELSE IF InRange(ty, v) THEN out.k = "val" /\ out.v = v ELSE out.k = "err"
+     ELSE IF InRange(ty, v) THEN (out.k = "val" /\ out.v = v) \/ (spaces /\ out.k = "err") ELSE out.k = "err"
 
 (* --------------------------------- dates --------------------------------- *)
 (* proleptic Gregorian civil date -> days since 1970-01-01 (native integers suffice) *)
